@@ -22,7 +22,7 @@ open Tickit Tickit.Driver Tickit.Life
 
 def cfg : Cfg :=
   ⟨Gen.Life.closePurges, Gen.Life.destroyClosesChildren, Gen.Life.spanExactFit, Gen.Life.mouseKeepsRoot, Gen.Life.lastPressInit,
-   Gen.Life.dragForgottenOnClose, Gen.Life.snapshotRouting⟩
+   Gen.Life.dragForgottenOnClose, Gen.Life.snapshotRouting, Gen.Life.penCopyKeepsSrc⟩
 
 structure DSt where
   st : St := {}
@@ -78,7 +78,18 @@ def parseOp (ts : List String) : Option Op :=
   | ["pen"] => some .pen
   | ["pref", k] => do some (.pref (← nat? k))
   | ["punref", k] => do some (.punref (← nat? k))
-  | ["pset", k, _] => do some (.pset (← nat? k))
+  | ["pset", k, v] => do some (.pset (← nat? k) (← int? v))
+  | ["pdesc", k, h] => do some (.pdesc (← nat? k) (← hexBytes? h))
+  | ["pcopy", d, s, ow] => do some (.pcopy (← nat? d) (← nat? s) ((← int? ow) ≠ 0))
+  | ["pcopyattr", d, s] => do some (.pcopyattr (← nat? d) (← nat? s))
+  | "pbind" :: k :: acts => do
+    let pa (t : String) : Option PAct :=
+      match t.toList with
+      | 'q' :: r => (String.ofList r).toNat?.map PAct.unref
+      | 'Q' :: r => (String.ofList r).toNat?.map PAct.ref
+      | _ => none
+    some (.pbind (← nat? k) (← acts.mapM pa))
+  | ["punbind", k, id] => do some (.punbind (← nat? k) (← int? id))
   | ["setpen", w, p] => do some (.setpen (← nat? w) (← optPen p))
   | ["tref"] => some .tref
   | ["tunref"] => some .tunref
